@@ -38,6 +38,8 @@ NUM_SITES: Dict[str, Tuple[List[str], List[str]]] = {
     "ifexp": ([], ["mon.write(1 if {V} == 200 else 0)"]),
     "fstring": ([], ['mon.write(f"v={{V}}")']),
     "beep": (["bz2 = Buzzer(5)"], ["bz2.beep(440, on_ms={V} // 10, off_ms=0, times=2)"]),
+    "tone_dur": (["bz3 = Buzzer(7)"], ["bz3.play_tone(440, {V})", "mon.write(bz3.get_state())", "sleep(3)"]),
+    "glyph_row": (["lcdg = LCD(i2c_addr=38, cols=8, rows=2)"], ["lcdg.glyph(2, [{V} // 10, 1, 2, 3, 4, 5, 6, 7])", 'mon.write("g")']),
 }
 
 EXPRS = [
@@ -47,13 +49,14 @@ EXPRS = [
     "200 if 1 == 1 != 2 else 0", "0 if 1 < 2 < 3 < 3 else 200", "round(199.6)" if False else "int(199.6) + 1",
 ]
 
+ZEROS = ["0", "0.0", "500 - 500", "False", "0 * 7", "-0", "int(0.9)"]
 FRACTIONS = ["7 / 2", "1.5", "0.75 * 2", "11 / 4", "2.5", "10 / 4", "0.29 * 1000", "200.5", "199.999", "0.5", "0.4 + 0.2", "3 * 1.9"]
 
 # Expressions whose operators have C semantics when they are NOT folded (known C01 findings: floor
 # division / modulo of negatives, **, value-returning and/or); they are used at folding sites only.
 FOLD_ONLY = {"-7 // 2 + 204", "-7 % 3 + 198", "2 ** 3 * 25", "not 0 and 200"}
 NON_FOLDING_SITES = {"global_init", "condition", "ifexp", "fstring", "motor", "progress"}
-NO_HOST_SITES = {"tone", "beep"}  # the Buzzer has no host model: metamorphic comparison only
+NO_HOST_SITES = {"tone", "beep", "tone_dur"}  # the Buzzer has no host model: metamorphic comparison only
 
 # control-flow paths that (may) re-bind v; {A} = input dependent value read at run time
 PATHS: Dict[str, List[str]] = {
@@ -72,6 +75,8 @@ PATHS: Dict[str, List[str]] = {
     "try_except_arm": ["try:", "    q8 = 1", "except:", "    v = 1"],
     "try_if": ["try:", "    if a > 3:", "        v = 120", "except:", "    q9 = 0"],
     "straight": ["v = 120"],
+    "straight_div": ["v /= 2"], "straight_floordiv": ["v //= 3"], "straight_mul": ["v *= 2"], "straight_sub": ["v -= 30"], "straight_mod": ["v %= 150"],
+    "straight_div_if": ["if a > 3:", "    v /= 2"],  # (200 -> 100 -> 50 -> 25: stays integral for the passes run; a fractional value in an int variable is KF-C02-first-assignment-wins)
     "straight_aug": ["v += 20"],
     "straight_tuple": ["v, q4 = 120, 2"],
     "none": [],
@@ -101,6 +106,11 @@ def gen_numeric(tier: str) -> Iterator[dict]:
             yield {"id": f"N:{site}:expr{ei}:setup", "space": "N", "src": common.script(HEAD + decls + render(expr), None, prologue=PRO), "runs": _runs(0)[:1], "group": f"{site}:setup:{eval(e)}", "value": e}
             if ei < 6 or tier == "thorough":
                 yield {"id": f"N:{site}:expr{ei}:loop", "space": "N", "src": common.script(HEAD + decls, render(expr), prologue=PRO), "runs": _runs(2)[:1], "group": f"{site}:loop:{eval(e)}", "value": e}
+        if site in ("sleep", "blink", "beep", "tone_dur"):
+            for zi, e in enumerate(ZEROS):
+                expr = f"({e})"
+                for kind, pre, val in (("lit", [], expr), ("name", [f"v = {e}"], "v"), ("rt", ["z0 = a - a", f"v = z0 + {expr}"], "v")):
+                    yield {"id": f"N:{site}:zero{zi}:{kind}", "space": "N", "src": common.script(HEAD + decls + pre + render(val), None, prologue=PRO), "runs": _runs(0)[:1], "group": f"{site}:zero:{e}", "value": e}
         if site in ("sleep", "blink", "beep"):
             # fractional durations: the folded value and the value a run-time variable carries into the same call
             # must give the same wait (the firmware truncates towards zero in both cases)
